@@ -148,6 +148,16 @@ MUTANTS = [
 """)),
     M("c17-first-item", ["C17"], (HRS, "        let mut pocket_start_rank = None;\n", "        let mut pocket_start_rank = None;\n        if let Some((rp, _)) = rank_pairs.iter().next() { if let RankPair::Pocket(r) = rp { pocket_start_rank = Some(*r); } }\n")),
     M("benign-c17-count", ["C17"], (HRS, "        let mut tokens = vec![];\n\n        let mut pocket_start_rank = None;", "        let mut tokens = Vec::with_capacity(orphan_card_pairs.iter().count());\n\n        let mut pocket_start_rank = None;"), benign=True),
+    M("benign-regex-cache", ["C05", "C09", "C10", "C15"],
+      (TK, """        let single_pocket_pair_regex =
+            Regex::new(r"^[AKQJT98765432]{2}(:(0(\\.[0-9]+)?|1(\\.0+)?))?$").unwrap();""", """        static SINGLE_POCKET: std::sync::LazyLock<Regex> = std::sync::LazyLock::new(|| {
+            Regex::new(r"^[AKQJT98765432]{2}(:(0(\\.[0-9]+)?|1(\\.0+)?))?$").unwrap()
+        });
+        let single_pocket_pair_regex = &*SINGLE_POCKET;"""),
+      (TK, """        let single_rank_pair_regex =
+            Regex::new(r"^[AKQJT98765432]{2}[so](:(0(\\.[0-9]+)?|1(\\.0+)?))?$").unwrap();""", """        static SINGLE_RANK: std::sync::OnceLock<Regex> = std::sync::OnceLock::new();
+        let single_rank_pair_regex = SINGLE_RANK
+            .get_or_init(|| Regex::new(r"^[AKQJT98765432]{2}[so](:(0(\\.[0-9]+)?|1(\\.0+)?))?$").unwrap());"""), benign=True),
     M("c08-recursion", ["C08"], (FE, """        loop {
             if let Some(showdown) = self.next_deal()? {
                 return Some(showdown);
